@@ -1,47 +1,56 @@
 -------------------------------- MODULE Trace --------------------------------
 (***************************************************************************)
 (* Trace validation (code -> spec).  The harness logs one ndjson line per  *)
-(* operation of the real code together with the FULL projected state of    *)
-(* every cache of the run.  This module replays the file: for each line it *)
-(* evaluates                                                               *)
-(*   (a) every property monitor on (pre, event, post, ghost)  -> "FAIL"    *)
+(* operation (macro-level calls: one or two sub-events) of the real code   *)
+(* together with the FULL projected state of every cache of the run.       *)
+(* This module replays the file: for each line it evaluates                *)
+(*   (a) every property monitor on (pre, event, post, ghost)   -> "FAIL"   *)
 (*   (b) the operational specification's own action as a predicate on the  *)
-(*       observed pre/post pair                                -> "DRIFT"  *)
+(*       observed pre/post pair                                 -> "DRIFT" *)
 (* and prints one tuple per failure instead of blocking, so one bad line   *)
-(* never hides the rest of the file.  Ghost state is recomputed here from  *)
-(* the events, never read from the log.                                    *)
+(* never hides the rest of the file.  Ghost state (store order, recency    *)
+(* order, hit counts, latest values, expected statistics, used functions)  *)
+(* is recomputed here from the events, never read from the log.            *)
 (***************************************************************************)
-EXTENDS Monitors, Json, IOUtils
+EXTENDS SysMonitors, Json, IOUtils
 
 Rec == ndJsonDeserialize(IOEnv.TRACE)
 
-VARIABLES l,     \* number of lines consumed
-          cfgs,  \* cache name -> cfg   (from the last reset line)
-          gs     \* cache name -> ghost
+VARIABLES l,      \* number of lines consumed
+          cfgs,   \* cache key -> cfg            (from the last reset line)
+          metas,  \* cache key -> wrapper attributes
+          gs,     \* cache key -> ghost
+          xs,     \* cache key -> expected statistics [h, m] since the last reset of that cache
+          usedK,  \* cache keys (global / async) whose function has been called
+          pm      \* cacheName -> registered invalidation metadata (process wide)
 
-tvars == <<l, cfgs, gs>>
-
-ToEvent(r) == [op |-> r.ev, k |-> r.k, v |-> r.v, size |-> r.size, mem |-> r.mem,
-               ret |-> r.ret, d |-> r.d, panic |-> r.panic]
-
-Report(kind, id, line) == PrintT(<<kind, id, line>>)
+tvars == <<l, cfgs, metas, gs, xs, usedK, pm>>
 
 \* IF-THEN-ELSE, not a disjunction: TLC would explore both disjuncts of an action-level "\/"
-Check(ok, kind, id, line) == IF ok THEN TRUE ELSE Report(kind, id, line)
+Check(ok, kind, id, line) == IF ok THEN TRUE ELSE PrintT(<<kind, id, line>>)
 
-\* the operational specification as a predicate on an observed step
-SpecStep(cfg, pre, e, post) ==
-  CASE e.op = "get"  -> LET r == Get(cfg, pre, e.k) IN ~e.panic /\ post = r.c /\ e.ret = r.ret
-    [] e.op = "ins"  -> [c |-> post, panic |-> e.panic] \in Insert(cfg, pre, e.k, e.v, e.size, e.mem)
-    [] e.op = "tick" -> post = Tick(pre, e.d)
+Cmp(meta, c) == IF meta.stats THEN c ELSE NoStats(c)
+
+\* the operational specification as a predicate on an observed step of one cache
+SpecStep(cfg, meta, pre, e, post) ==
+  CASE e.op = "get"   -> LET r == Get(cfg, pre, e.k) IN
+                         ~e.panic /\ Cmp(meta, post) = Cmp(meta, r.c) /\ e.ret = r.ret
+    [] e.op = "ins"   -> \E s \in Insert(cfg, pre, e.k, e.v, e.size, e.mem) :
+                            s.panic = e.panic /\ Cmp(meta, s.c) = Cmp(meta, post)
+    [] e.op = "noins" -> post = pre /\ ~e.panic
     [] OTHER -> TRUE
 
-EngineOps == {"get", "ins"}
+InitFrom(r) ==
+  /\ cfgs = r.cfgs
+  /\ metas = r.metas
+  /\ gs = [n \in DOMAIN r.sts |-> G0]
+  /\ xs = [n \in DOMAIN r.sts |-> X0]
+  /\ usedK = {n \in DOMAIN r.metas : r.metas[n].warm /\ r.metas[n].kind # "thread"}
+  /\ pm = r.pmetas
 
 Init == /\ l = 1
         /\ Rec[1].ev = "reset"
-        /\ cfgs = Rec[1].cfgs
-        /\ gs = [n \in DOMAIN Rec[1].sts |-> G0]
+        /\ InitFrom(Rec[1])
 
 Consume ==
   /\ l < Len(Rec)
@@ -49,27 +58,26 @@ Consume ==
          prev == Rec[l]
          line == l + 1
      IN
-     CASE r.ev = "reset" ->
-            /\ cfgs' = r.cfgs
-            /\ gs' = [n \in DOMAIN r.sts |-> G0]
-       [] r.ev \in EngineOps ->
-            LET n == r.n
-                cfg == cfgs[n]
-                pre == prev.sts[n]
-                post == r.sts[n]
-                e == ToEvent(r)
-            IN /\ \A id \in EngineMonitorIds :
-                     Check(Monitor(id, cfg, pre, e, post, gs[n]), "FAIL", id, line)
-               /\ Check(SpecStep(cfg, pre, e, post), "DRIFT", "engine", line)
-               /\ Check(\A m \in DOMAIN r.sts \ {n} : r.sts[m] = prev.sts[m], "DRIFT", "frame", line)
-               /\ gs' = [gs EXCEPT ![n] = GNext(gs[n], e, post)]
-               /\ UNCHANGED cfgs
-       [] r.ev = "tick" ->
-            /\ Check(\A m \in DOMAIN r.sts : r.sts[m] = Tick(prev.sts[m], r.d), "DRIFT", "tick", line)
-            /\ UNCHANGED <<cfgs, gs>>
-       [] OTHER ->
-            /\ Report("DRIFT", "unknown-event", line)
-            /\ UNCHANGED <<cfgs, gs>>
+     IF r.ev = "reset"
+     THEN /\ cfgs' = r.cfgs /\ metas' = r.metas
+          /\ gs' = [n \in DOMAIN r.sts |-> G0]
+          /\ xs' = [n \in DOMAIN r.sts |-> X0]
+          /\ usedK' = {n \in DOMAIN r.metas : r.metas[n].warm /\ r.metas[n].kind # "thread"}
+          /\ pm' = r.pmetas
+     ELSE /\ \A id \in RecordFails(r, cfgs, metas, gs, xs, usedK, pm, prev.sts, r.sts) :
+                PrintT(<<"FAIL", id, line>>)
+          /\ r.ev \in CacheOps =>
+                Check(SpecStep(cfgs[r.n], metas[r.n], prev.sts[r.n], EngEvent(metas[r.n], r), r.sts[r.n]),
+                      "DRIFT", "engine", line)
+          /\ r.ev = "tick" =>
+                Check(\A m \in DOMAIN r.sts : r.sts[m] = Tick(prev.sts[m], r.d), "DRIFT", "tick", line)
+          /\ r.ev \notin CacheOps \cup InvOps \cup {"tick", "stats_get", "stats_reset"} =>
+                Check(FALSE, "DRIFT", "unknown-event", line)
+          /\ gs' = GsNext(r, metas, gs, r.sts)
+          /\ xs' = XsNext(r, cfgs, metas, xs, usedK, prev.sts)
+          /\ usedK' = UsedNext(r, metas, usedK)
+          /\ pm' = PmNext(r, metas, pm)
+          /\ UNCHANGED <<cfgs, metas>>
   /\ l' = l + 1
 
 Next == Consume
